@@ -18,15 +18,16 @@ OptE(long) == IF long THEN <<45, 45, 101, 120, 112, 114, 45, 102, 105, 108, 101>
 OptU(long) == IF long THEN <<45, 45, 117, 110, 113, 117, 111, 116, 101, 100>> ELSE <<45, 117>>
 OptAst == <<45, 45, 97, 115, 116>>
 
-Case(ei, ii, exprsrc, inputsrc, unq, ast, long) ==
-  LET e == P.exprs[ei] i == P.inputs[ii]
-      argv == (IF unq THEN <<OptU(long)>> ELSE <<>>) \o (IF ast THEN <<OptAst>> ELSE <<>>)
+CaseOf(e, i, exprsrc, inputsrc, unq, ast, long, pad) ==
+  LET argv == (IF unq THEN <<OptU(long)>> ELSE <<>>) \o (IF ast THEN <<OptAst>> ELSE <<>>)
               \o (IF inputsrc = "file" THEN <<OptF(long), IFN>> ELSE IF inputsrc = "missingfile" THEN <<OptF(long), MISSING>> ELSE <<>>)
               \o (IF exprsrc = "arg" THEN <<e>> ELSE IF exprsrc = "file" THEN <<OptE(long), EF>> ELSE <<OptE(long), MISSING>>)
       files == (IF exprsrc = "file" THEN <<[name |-> EF, content |-> e]>> ELSE <<>>)
                \o (IF inputsrc = "file" THEN <<[name |-> IFN, content |-> i]>> ELSE <<>>)
   IN [e |-> "cli", argv |-> argv, files |-> files, stdin |-> IF inputsrc = "stdin" THEN i ELSE <<>>,
-      expr |-> e, input |-> i, exprsrc |-> exprsrc, inputsrc |-> inputsrc, unquoted |-> unq, ast |-> ast]
+      expr |-> e, input |-> i, exprsrc |-> exprsrc, inputsrc |-> inputsrc, unquoted |-> unq, ast |-> ast, pad |-> pad]
+
+Case(ei, ii, exprsrc, inputsrc, unq, ast, long) == CaseOf(P.exprs[ei], P.inputs[ii], exprsrc, inputsrc, unq, ast, long, 0)
 
 Full == IOEnv.FULL = "1"
 Cases(zzdummy) ==
@@ -36,6 +37,10 @@ Cases(zzdummy) ==
                                              es \in {"arg", "file", "missingfile"}, is \in {"stdin", "file", "missingfile"},
                                              u \in BOOLEAN, a \in BOOLEAN, l \in BOOLEAN}
       all == SetToSeq(main \cup shapes)
+      \* inputs longer than 64 KiB / 128 KiB on stdin and in a file (the character U+E000 of the input stands for `pad` letters)
+      big == SetToSeq({<<ei, bi, p, is>> : ei \in {P.bigexprs[1], P.bigexprs[2]}, bi \in DOMAIN P.biginputs, p \in {P.pads[k] : k \in DOMAIN P.pads},
+                                         is \in {"stdin", "file"}})
   IN [x \in DOMAIN all |-> Case(all[x][1], all[x][2], all[x][3], all[x][4], all[x][5], all[x][6], all[x][7])]
+     \o [x \in DOMAIN big |-> CaseOf(P.exprs[big[x][1]], P.biginputs[big[x][2]], "arg", big[x][4], FALSE, FALSE, FALSE, big[x][3])]
 ASSUME ndJsonSerialize(IOEnv.OUT, Cases(0))
 =============================================================================
